@@ -627,11 +627,12 @@ def field_producers(prog, field):
     return out
 
 
-def backward_calls(prog, fn, start, depth=6, _seen=None):
+def backward_calls(prog, fn, start, depth=6, _seen=None, library=None):
     """Projection-insensitive backward slice of a value: the calls of *program* functions whose results can flow into
     it.  Library combinators (`then`, `map`, `transpose`, `flatten`, `?`, `unwrap_or` ...) are looked through - into
     their arguments and into the return values of closures passed to them.  Returns (calls, other_leaves) where
-    other_leaves are the non-constant, non-parameter origins that are not calls (e.g. arithmetic)."""
+    other_leaves are the non-constant, non-parameter origins that are not calls (e.g. arithmetic).  The library calls
+    that were looked through are appended to `library` when a list is given."""
     from .facts import norm_path
     if _seen is None:
         _seen = set()
@@ -646,6 +647,8 @@ def backward_calls(prog, fn, start, depth=6, _seen=None):
             if prog.has_fn(c.name) and prog.fn(c.name).kind != "closure":
                 calls.append(c)
                 continue
+            if library is not None:
+                library.append(c)
             if depth <= 0:
                 leaves.append((fn, o))
                 continue
@@ -658,17 +661,17 @@ def backward_calls(prog, fn, start, depth=6, _seen=None):
                     for x in cl:
                         g = prog.fns.get(norm_path(x.rv["closure"]))
                         if g is not None:
-                            cs, ls = backward_calls(prog, g, 0, depth - 1, _seen)
+                            cs, ls = backward_calls(prog, g, 0, depth - 1, _seen, library)
                             calls += cs
                             leaves += ls
                 else:
-                    cs, ls = backward_calls(prog, fn, a, depth - 1, _seen)
+                    cs, ls = backward_calls(prog, fn, a, depth - 1, _seen, library)
                     calls += cs
                     leaves += ls
         elif o.kind == "bin":
             for side in ("a", "b"):
                 if "c" not in o.rv[side]:
-                    cs, ls = backward_calls(prog, fn, o.rv[side], depth - 1, _seen)
+                    cs, ls = backward_calls(prog, fn, o.rv[side], depth - 1, _seen, library)
                     calls += cs
                     leaves += ls
         elif o.kind in ("const", "arg"):
